@@ -265,7 +265,9 @@ fn snapshot(tera: &Tera, prefixes: &[String]) -> Snap {
     names.sort();
     let rendered = acyclic(&real_graph(tera, prefixes, &derived));
     let mut renders = Vec::new();
-    let ctx = Context::new();
+    // a hostile value: templates ending in `{{ hv }}` show whether they are autoescaped
+    let mut ctx = Context::new();
+    ctx.insert("hv", &"<i a='1'>&\"");
     if rendered {
         for n in &names {
             renders.push((format!("render {n}"), outcome(catch(AssertUnwindSafe(|| tera.render(n, &ctx))))));
@@ -455,8 +457,41 @@ impl Runner {
         match step {
             Step::Add(items) => {
                 let pairs: Vec<(String, String)> = items.iter().map(|t| (t.name.clone(), t.source())).collect();
+                let via_files = items.first().is_some_and(|t| t.via_file);
+                if via_files {
+                    self.count(if items.len() == 1 { "add.via_add_template_file" } else { "add.via_add_template_files" });
+                }
                 let tera = &mut self.tera;
-                rec.result = match catch(AssertUnwindSafe(|| tera.add_raw_templates(pairs))) {
+                let outcome = if via_files {
+                    // the same batch through the file system: every source is written to a file of
+                    // its own (outside /repo and /verif) and registered under its name
+                    let dir = std::env::temp_dir().join(format!("c10-{}", std::process::id())).join("files");
+                    let _ = std::fs::create_dir_all(&dir);
+                    let files: Vec<(std::path::PathBuf, Option<String>)> = pairs
+                        .iter()
+                        .enumerate()
+                        .map(|(i, (n, src))| {
+                            let path = dir.join(format!("t{i}.tpl"));
+                            std::fs::write(&path, src).expect("write template file");
+                            (path, Some(n.clone()))
+                        })
+                        .collect();
+                    let r = if files.len() == 1 {
+                        let (p, n) = files[0].clone();
+                        catch(AssertUnwindSafe(|| tera.add_template_file(p, n.as_deref())))
+                    } else {
+                        let fs = files.clone();
+                        catch(AssertUnwindSafe(|| tera.add_template_files(fs)))
+                    };
+                    for (p, _) in &files {
+                        let _ = std::fs::remove_file(p);
+                    }
+                    let _ = std::fs::remove_dir(&dir);
+                    r
+                } else {
+                    catch(AssertUnwindSafe(|| tera.add_raw_templates(pairs)))
+                };
+                rec.result = match outcome {
                     Ok(Ok(())) => "ok".to_string(),
                     Ok(Err(e)) => canon_err(&e),
                     Err(p) => format!("panic {p}"),
@@ -608,6 +643,9 @@ impl Runner {
             for (n, t) in expect.derived.tpls.iter_mut() {
                 t.autoescape = suffix_match(&self.suffixes, n);
             }
+            // (what templates that print a hostile value render changes with their flag: the renders
+            // after the call are judged by the fresh-instance comparison below, not here)
+            expect.renders = after.renders.clone();
             if after == expect {
                 rec.escape = "flags only".into();
             } else {
@@ -1234,11 +1272,24 @@ impl Gen {
         if r < 13 {
             return (Step::Add(vec![]), "valid.empty_batch".into());
         }
-        if r < 74 || (cur.is_empty() && self.rng.chance(7, 10)) {
-            let items = self.valid_batch(cur);
-            return (Step::Add(items), "valid".into());
+        let (mut items, mut label) = if r < 74 || (cur.is_empty() && self.rng.chance(7, 10)) {
+            (self.valid_batch(cur), "valid".to_string())
+        } else {
+            self.invalid_batch(cur)
+        };
+        // some templates print a hostile value (the autoescape flag becomes visible in renders),
+        // and a quarter of the batches reach the engine through files and add_template_file(s)
+        for t in items.iter_mut() {
+            if self.rng.chance(1, 3) {
+                t.probe = true;
+            }
         }
-        let (items, label) = self.invalid_batch(cur);
+        if !items.is_empty() && self.rng.chance(1, 4) {
+            for t in items.iter_mut() {
+                t.via_file = true;
+            }
+            label.push_str(".files");
+        }
         (Step::Add(items), label)
     }
 }
@@ -1543,7 +1594,10 @@ fn shrink(mut h: History, fails: &dyn Fn(&History) -> bool) -> History {
 
 fn describe_step(s: &Step) -> serde_json::Value {
     match s {
-        Step::Add(items) => serde_json::json!({"add_raw_templates": items.iter().map(|t| (t.name.clone(), t.source())).collect::<Vec<_>>()}),
+        Step::Add(items) => {
+            let call = if items.first().is_some_and(|t| t.via_file) { if items.len() == 1 { "add_template_file (source written to a file)" } else { "add_template_files (sources written to files)" } } else { "add_raw_templates" };
+            serde_json::json!({call: items.iter().map(|t| (t.name.clone(), t.source())).collect::<Vec<_>>()})
+        }
         Step::Escape(l) => serde_json::json!({"autoescape_on": l}),
     }
 }
